@@ -174,7 +174,8 @@ func (state *State) NewSocket(src, dst net.Addr) *Socket {
 		laddr: dst,
 		raddr: src,
 
-		rchan: make(chan interface{}),
+		// one signal is kept for a reader that is not waiting yet
+		rchan: make(chan interface{}, 1),
 
 		// rbuffer: rbuf.NewFixedSizeRingBuf(65535),
 		// wbuffer: rbuf.NewFixedSizeRingBuf(65535),
